@@ -220,6 +220,10 @@ def catalogue():
                 "poly": np.array([[0.5, 0.5], [5.2, 0.7], [4.1, 4.4], [0.9, 3.8]])}
     G = lambda name, fn, arrs: A(name, fn, gridargs, arrs)
     G("Grid.coord2cell", lambda a: a["alt"].coord2cell(a["xy"]), ["alt", "xy"])
+    A("Grid.coord2cell(points on the outer edges)", lambda a: a["alt"].coord2cell(a["xyedge"]),
+      lambda r: dict(gridargs(r), xyedge=np.array([[6.0, 2.0], [3.0, 5.0], [6.0, 5.0], [0.0, 0.0], [0.0, 5.0], [6.0, 0.0], [2.5, 2.5]])), ["alt", "xyedge"])
+    A("Grid.slice(points on the outer edges)", lambda a: a["alt"].slice(a["xyedge"]),
+      lambda r: dict(gridargs(r), xyedge=np.array([[6.0, 2.0], [3.0, 5.0], [6.0, 5.0], [0.0, 0.0], [2.5, 2.5]])), ["alt", "xyedge"])
     G("Grid.cell2coord", lambda a: a["alt"].cell2coord(a["cells"]), ["alt", "cells"])
     G("Grid.cell2rowcol", lambda a: a["alt"].cell2rowcol(a["cells"]), ["alt", "cells"])
     G("Grid.slice", lambda a: a["alt"].slice(a["xy"]), ["alt", "xy"])
